@@ -134,6 +134,8 @@ class FnCtx:
         self.infeasible_ends = 0
         self.covered = set()
         self.failed_names = set()
+        self.callsites_seen = set()
+        self.trusted_clauses = set()
         self.rel = fnkey.split('::', 1)[1]
         self.pkg = fnkey.split('::', 1)[0]
         self.short = self.pkg.rsplit('/', 1)[-1] + '.' + self.rel
@@ -167,8 +169,15 @@ class FnCtx:
         r = self.solver.check()
         dt = time.time() - t0
         ok = (r == z3.unsat)
+        solver_name = 'z3-%s(incremental)' % z3.get_version_string()
+        if r == z3.unknown and self.valid_standalone(goal):
+            # hard context, easy goal: valid without any assumption
+            ok = True
+            r = z3.unsat
+            solver_name = 'z3-%s(standalone)' % z3.get_version_string()
+            dt = time.time() - t0
         if ok:
-            self.results.append(Result(name, kind, self.fnkey, 'discharged', dt, 'z3-%s(incremental)' % z3.get_version_string(), pos, text))
+            self.results.append(Result(name, kind, self.fnkey, 'discharged', dt, solver_name, pos, text))
         else:
             model = None
             if r == z3.sat:
@@ -329,6 +338,9 @@ class FnCtx:
         except OutOfSubset as ex:
             self.results.append(Result(self.short + '.subset', 'subset', self.fnkey, 'unknown', note='out of subset: %s' % ex))
         self.seconds = time.time() - t0
+        for (pat, c) in self.contract.calls:
+            if (pat, c.label) not in self.callsites_seen:
+                self.stale('%s.callsite[%s].requires[%s]' % (self.short, pat, c.label), 'no call matching the pattern was reached')
         if self.returns == 0 and not any(r.kind == 'subset' for r in self.results):
             self.notes.append('no path reaches a return')
 
@@ -460,15 +472,16 @@ class FnCtx:
                 self.solver.pop()
         if J is None or not coll:
             return
-        self.continue_from_join(st, coll, base_len, base_pc, lambda m: self.enter_block(m, fr, J, None))
+        self.continue_from_join(st, coll, base_len, base_pc, lambda m: self.enter_block(m, fr, J, None),
+                                live=cfg.uses_from(J) if fr is self.top else None)
 
-    def continue_from_join(self, parent, coll, base_len, base_pc, k):
+    def continue_from_join(self, parent, coll, base_len, base_pc, k, live=None):
         """continue once from the merged state, or separately when the arms cannot be merged"""
         from .merge import merge_states
         merged = None
         if len(coll) > 1:
             try:
-                merged = merge_states(self, parent, coll, base_len, base_pc)
+                merged = merge_states(self, parent, coll, base_len, base_pc, live)
             except OutOfSubset:
                 merged = None
         if merged is not None:
@@ -557,6 +570,10 @@ class FnCtx:
         ev.resolver = None
         for c in self.contract.ensures:
             name = '%s.ensures[%s]' % (self.short, c.label)
+            if c.label.endswith('!'):
+                # postcondition stated but not proved here: an assumption, listed in the evidence
+                self.trusted_clauses.add('%s (unproved postcondition): %s' % (name, c.text))
+                continue
             try:
                 g = ev.bool(c.expr)
             except SpecError as ex:
@@ -608,6 +625,10 @@ class FnCtx:
             for (hp, pre, F) in h.frames.get(key, []):
                 conds.append(z3.Implies(r <= F, z3.Select(hp, r) == z3.Select(pre, r)))
             goal = z3.Implies(z3.And(conds), a == b2)
+            if nm not in self.failed_names and self.valid_standalone(goal):
+                self.results.append(Result(nm, 'frame', self.fnkey, 'discharged', 0.0, 'z3(standalone)', ins.get('pos'),
+                                           'unchanged outside modifies'))
+                continue
             self.prove(st, goal, nm, 'frame', ins.get('pos'), 'unchanged outside modifies', assume_after=False)
 
     # ------------------------------------------------------------ loops
@@ -714,6 +735,13 @@ class FnCtx:
                 lines = [i['pos']['line'] for i in b['instrs'] if i.get('pos')]
                 out.append({'block': b['idx'], 'comment': b.get('comment'), 'line': min(lines) if lines else None})
         return out
+
+    def valid_standalone(self, goal, ms=1500):
+        """validity without the path's assumptions (pure store-chain reasoning)"""
+        s = z3.Solver()
+        s.set('timeout', ms)
+        s.add(z3.Not(goal))
+        return s.check() == z3.unsat
 
     def path_feasible(self):
         return self.solver.feasible()
